@@ -17,13 +17,21 @@ THEOREMS = ["QExPy.C14_derived_nonneg",
             "QExPy.C14_negative_array_rejected",
             "QExPy.C14_nonneg_accepted",
             "QExPy.C14_rel",
-            "QExPy.C14_statistics_nonneg"]
+            "QExPy.C14_statistics_nonneg",
+            "QExPy.C14_mc",
+            "QExPy.C14_mc_measurement"]
 RULE = ("seeded histories (3-14 requests) over a heap of quantities: Measurement(v[, e]), "
         "Measurement([..][, e | [e..]]), MeasurementArray(error= | relative_error=, number or list), "
-        "XYDataSet(xerr=, yerr=), re-wrapping existing arrays with new uncertainties "
+        "XYDataSet(xerr=, yerr=), array.append / array.insert of numbers, (v, e) pairs and lists of "
+        "pairs, re-wrapping existing arrays with new uncertainties "
         "(MeasurementArray(arr, error=) and XYDataSet(xdata=arr, ydata=arr, xerr=, yerr=)), the "
         "error / relative_error / value setters on single, repeated and derived quantities, the "
-        "use_* selectors, arithmetic with quantity / number / (v, e)-pair operands and unary minus; "
+        "use_* selectors, arithmetic with quantity / number / (v, e)-pair operands and unary minus, "
+        "and the Monte Carlo results of calculated quantities (error_method = Monte Carlo with the "
+        "mean-and-std strategy, use_mode_with_confidence at valid and invalid confidences — also on "
+        "x*x, 1-x*x, -(x*x) with x = 0 +/- s, whose histogram peaks in the first / last bin — and "
+        "use_custom_value_and_error with non-negative and negative uncertainties; the stored samples "
+        "are retrieved and the model computes mean / n-1 std / mode walk FROM THEM); "
         "sign patterns {+,0,-} for values, uncertainties and relative uncertainties; after every "
         "request value and uncertainty of every live quantity are read, compared with "
         "Model/Uncert.lean run at FB and 0 <= uncertainty / unchanged-after-reject evaluated "
@@ -32,11 +40,17 @@ RULE = ("seeded histories (3-14 requests) over a heap of quantities: Measurement
 ASSUMPTIONS = ["theorems are over the reals; binary64 rounding is compared under the FB bound",
                "derived values are read right after creation (the library caches them); operands "
                "whose sources changed since are not reused (stale caches are C05's subject)",
-               "Monte-Carlo results (standard deviation of a sample, mode walk) are C16's subject"]
-TRUSTED = ["modelled not verified: numpy broadcasting in _get_error_array_helper, numpy.sqrt"]
+               "Monte Carlo results are compared with the model GIVEN the sample set the library "
+               "retrieves (d.mc.samples()) and numpy.histogram of it (trusted, edges in order: checked "
+               "on every request as the hypothesis WF of C14_inv_step); histories in which a sample "
+               "set has fewer than 2 elements, or numpy.histogram cannot make 100 bins of it (samples "
+               "equal up to an ulp), are skipped and counted"]
+TRUSTED = ["modelled not verified: numpy broadcasting in _get_error_array_helper, numpy.sqrt, "
+           "numpy.histogram / numpy.mean / numpy.std on the Monte Carlo sample set"]
 LEVEL_TEXT = ("Lean 4 theorems about the creation/mutation state machine Model/Uncert.lean "
               "(0 <= uncertainty preserved by every accepted request over all histories, rejected "
-              "requests leave the heap unchanged, relative uncertainty r >= 0 gives r*|value|) + "
+              "requests leave the heap unchanged, relative uncertainty r >= 0 gives r*|value|, Monte "
+              "Carlo results under each strategy) + "
               "differential run on histories")
 TECHNIQUE = "Lean 4 machine-checked proof over a model tied to the source by a differential correspondence run"
 
@@ -106,6 +120,7 @@ class Track:
     def __init__(self):
         self.kind, self.val, self.src, self.stale = [], [], [], []
         self.arrays = []      # lists of heap ids that form a MeasurementArray
+        self.mc = set()       # calculated quantities whose error method is Monte Carlo by now
 
     def push(self, kind, val=None, src=None):
         self.kind.append(kind)
@@ -118,6 +133,67 @@ class Track:
         for j, s in enumerate(self.src):
             if j != i and self.kind[j] == "derived" and i in s:
                 self.stale[j] = True
+
+
+MC_CONFS = [0.3, 0.5, 0.68, 0.9, 0.95, 1.0]
+
+
+def gen_mc(rng, t, ops, flags, pneg):
+    """Monte Carlo paths of a calculated quantity.  Either a motif whose sample distribution peaks
+    at an END of its histogram (x*x, 1 - x*x, -(x*x) with x = 0 +/- s) or a request on a
+    calculated quantity of the heap (occasionally on a measurement, which has no `.mc`)."""
+    flags.add("mc")
+    derived = [i for i in range(len(t.kind)) if t.kind[i] == "derived"]
+    if not derived or rng.random() < 0.4:
+        sg = rng.choice([0.5, 1.0, 2.0, round(rng.uniform(0.2, 3), 2)])
+        ops.append(["meas", bits(0.0), bits(sg)])
+        a = t.push("single", 0.0)
+        ops.append(["arith", "mul", ["ref", a], ["ref", a]])
+        d = t.push("derived", None, {a})
+        k = rng.random()
+        if k < 0.35:      # peak in the LAST bin
+            ops.append(["arith", "sub", ["num", bits(rng.choice([1.0, 0.0, -2.5]))], ["ref", d]])
+            d = t.push("derived", None, {a, d})
+        elif k < 0.5:
+            ops.append(["un", "neg", d])
+            d = t.push("derived", None, {a, d})
+        flags.add("mcedge")
+        target = d
+    else:
+        target = rng.choice(derived)
+        if rng.random() < 0.06:
+            others = [i for i in range(len(t.kind)) if t.kind[i] != "derived"]
+            if others:
+                target = rng.choice(others)
+    isder = t.kind[target] == "derived"
+    for _ in range(rng.choice([1, 1, 2, 3])):
+        k = rng.random()
+        if k < 0.25:
+            ops.append(["mcmean", target])
+            ok = isder
+        elif k < 0.7:
+            bad = rng.random() < 0.15
+            conf = rng.choice([1.5, -0.1, 7.0]) if bad else rng.choice(MC_CONFS)
+            if bad and isder and target not in t.mc:
+                ops.append(["mcmean", target])     # the rejected request must find the method set
+                t.mc.add(target)
+            ops.append(["mcmode", target, bits(conf)])
+            ok = isder and not bad
+            if bad:
+                flags.add("neg")
+        else:
+            v, e = sval(rng), serr(rng, max(pneg, 0.3))
+            if isder and target not in t.mc:
+                ops.append(["mcmean", target])
+                t.mc.add(target)
+            ops.append(["mccustom", target, bits(v), bits(e)])
+            ok = isder and e >= 0
+            if e < 0:
+                flags.add("neg")
+                flags.add("mcneg")
+        if ok:
+            t.mc.add(target)
+            t.val[target] = None
 
 
 def gen_case(rng, malformed=False, long=False):
@@ -166,6 +242,23 @@ def gen_case(rng, malformed=False, long=False):
             if spec_ok(xs, sx) and spec_ok(ys, sy) and n == m:
                 t.arrays.append([t.push("single", x) for x in xs])
                 t.arrays.append([t.push("single", y) for y in ys])
+            else:
+                flags.add("neg")
+        elif r < 0.46 and t.arrays and rng.random() < 0.45:
+            # arr.append(x) / arr.insert(i, x) with x a number, a (v, e) pair or a list of pairs:
+            # each new element is built by wrap_in_measurement -> MeasuredValue(v, e)
+            ids = rng.choice(t.arrays)
+            items = []
+            for _ in range(rng.choice([1, 1, 1, 2, 3])):
+                v = sval(rng)
+                e = None if rng.random() < 0.2 else serr(rng, pneg * 1.5)
+                items.append([bits(v), None if e is None else bits(e)])
+            pos = None if rng.random() < 0.6 else rng.randint(0, len(ids))
+            ops.append(["append", list(ids), items, pos])
+            if all(it[1] is None or unbits(it[1]) >= 0 for it in items):
+                new = [t.push("single", unbits(it[0])) for it in items]
+                k = len(ids) if pos is None else pos
+                t.arrays.append(list(ids[:k]) + new + list(ids[k:]))
             else:
                 flags.add("neg")
         elif r < 0.46 and t.arrays:
@@ -224,6 +317,8 @@ def gen_case(rng, malformed=False, long=False):
             ops.append(["sel", i, rng.choice(list(SEL_METHOD))])
             t.val[i] = None
             t.touched(i)
+        elif r < 0.91:
+            gen_mc(rng, t, ops, flags, pneg)
         else:
             usable = [i for i in live if not t.stale[i]]
             if not usable:
@@ -264,7 +359,8 @@ def gen_case(rng, malformed=False, long=False):
                     j = t.push("single", v)
                     src = src | {j}
                 t.push("derived", None, src)
-    return {"ops": ops, "malformed": malformed, "flags": sorted(flags)}
+    return {"ops": ops, "malformed": malformed, "flags": sorted(flags),
+            "mcN": rng.choice([120, 300]), "npseed": rng.randrange(2 ** 32)}
 
 
 def fmt_spec(s, kw="error"):
@@ -306,6 +402,11 @@ def describe(c):
         elif k == "rewrapxy":
             out.append("XYDataSet(xdata=<array h{}>, ydata=<array h{}>{}{})".format(
                 o[1], o[2], fmt_spec(o[3], "xerr"), fmt_spec(o[4], "yerr")))
+        elif k == "append":
+            its = [unbits(v) if e is None else (unbits(v), unbits(e)) for v, e in o[2]]
+            arg = repr(its[0]) if len(its) == 1 else repr(its)
+            out.append("<array h{}>.{}".format(o[1], "append({})".format(arg) if o[3] is None
+                                              else "insert({}, {})".format(o[3], arg)))
         elif k == "seterr":
             out.append("h[{}].error = {!r}".format(o[1], unbits(o[2])))
         elif k == "setrel":
@@ -318,6 +419,16 @@ def describe(c):
             out.append("{} {} {}".format(opnd(o[2]), sym[o[1]], opnd(o[3])))
         elif k == "un":
             out.append("-h[{}]".format(o[2]))
+        elif k == "mcmean":
+            out.append("h[{0}].error_method = MC; h[{0}].mc.use_mean_and_std()".format(o[1]))
+        elif k == "mcmode":
+            out.append("h[{0}].error_method = MC; h[{0}].mc.use_mode_with_confidence({1!r})".format(
+                o[1], unbits(o[2])))
+        elif k == "mccustom":
+            out.append("h[{0}].error_method = MC; h[{0}].mc.use_custom_value_and_error({1!r}, {2!r})"
+                       .format(o[1], unbits(o[2]), unbits(o[3])))
+    if any(o[0].startswith("mc") for o in c["ops"]):
+        out.append("[Monte Carlo sample size {}, numpy seed {}]".format(c.get("mcN"), c.get("npseed")))
     return "; ".join(out)
 
 
@@ -353,6 +464,9 @@ def read_heap(objs):
 def observe(q, c):
     import numpy as np
     H.reset(q)
+    if c.get("mcN"):
+        q.set_monte_carlo_sample_size(c["mcN"])
+        np.random.seed(c.get("npseed", 0))
     objs = []
     arrays = {}
     steps = []
@@ -399,6 +513,18 @@ def observe(q, c):
             def f():
                 q.XYDataSet(xdata=arrays[tuple(o[1])], ydata=arrays[tuple(o[2])],
                             **spec_kwargs(o[3], "xerr"), **spec_kwargs(o[4], "yerr"))
+        elif k == "append":
+            def f():
+                a = arrays[tuple(o[1])]
+                its = [unbits(v) if e is None else (unbits(v), unbits(e)) for v, e in o[2]]
+                arg = its[0] if len(its) == 1 else its
+                res = a.append(arg) if o[3] is None else a.insert(o[3], arg)
+                old_ids = {id(x) for x in a}
+                fresh = [x for x in res if id(x) not in old_ids]
+                pos = len(o[1]) if o[3] is None else o[3]
+                nid = list(range(len(objs), len(objs) + len(fresh)))
+                arrays[tuple(list(o[1][:pos]) + nid + list(o[1][pos:]))] = res
+                new.extend(fresh)
         elif k == "seterr":
             def f():
                 objs[o[1]].error = unbits(o[2])
@@ -422,17 +548,73 @@ def observe(q, c):
         elif k == "un":
             def f():
                 new.append(-objs[o[2]])
+        elif k in ("mcmean", "mcmode", "mccustom"):
+            def f():
+                x = objs[o[1]]
+                if type(x).__name__ == "DerivedValue":
+                    x.error_method = q.ErrorMethod.MONTE_CARLO
+                if k == "mcmean":
+                    x.mc.use_mean_and_std()
+                elif k == "mcmode":
+                    x.mc.use_mode_with_confidence(unbits(o[2]))
+                else:
+                    x.mc.use_custom_value_and_error(unbits(o[2]), unbits(o[3]))
         st, e = H.call(f)
         if st == "ok":
             objs.extend(new)
         else:
             excs[e] += 1
-        steps.append({"out": st, "exc": None if st == "ok" else e, "heap": read_heap(objs)})
+        rec = {"out": st, "exc": None if st == "ok" else e}
+        if k in ("mcmean", "mcmode", "mccustom") and o[1] < len(objs) \
+                and type(objs[o[1]]).__name__ == "DerivedValue":
+            # the sample set the reported numbers must be a function of (retrieved, not fresh)
+            s2, smp = H.call(lambda: np.array(objs[o[1]].mc.samples(), dtype=float))
+            if s2 == "ok":
+                rec["mc"] = {"samples": [bits(float(x)) for x in smp]}
+                if len(smp) >= 2 and np.isfinite(smp).all():
+                    if k == "mcmode":
+                        try:
+                            cnt, edg = np.histogram(smp, bins=100)
+                            rec["mc"]["counts"] = [int(x) for x in cnt]
+                            rec["mc"]["edges"] = [bits(float(x)) for x in edg]
+                        except ValueError:
+                            # numpy cannot make 100 finite bins (samples equal up to an ulp):
+                            # the mode strategy is undefined there, outside the model
+                            rec["mc"]["degenerate"] = True
+                else:
+                    rec["mc"]["degenerate"] = True
+        rec["heap"] = read_heap(objs)
+        steps.append(rec)
+    H.reset(q)
     return {"steps": steps, "exceptions": dict(excs)}
 
 
-def model_line(c):
-    return {"cmd": "c14", "ops": c["ops"]}
+def model_line(c, o=None):
+    """Monte Carlo requests are handed to the model WITH the sample set (and its numpy histogram)
+    the library retrieved at that step"""
+    ops = []
+    for i, op in enumerate(c["ops"]):
+        mc = (o["steps"][i].get("mc") if o and i < len(o["steps"]) else None) or {}
+        if op[0] == "mcmean":
+            ops.append(["mcmean", op[1], mc.get("samples", [])])
+        elif op[0] == "mcmode":
+            ops.append(["mcmode", op[1], mc.get("counts", []), mc.get("edges", []), op[2]])
+        elif op[0] == "append":
+            # every new element goes through MeasuredValue(v, e) (a bare number: e = 0); a list is
+            # all-or-nothing, like the array constructor with per-element uncertainties
+            zero = bits(0.0)
+            its = [[v, zero if e is None else e] for v, e in op[2]]
+            if len(its) == 1:
+                ops.append(["meas", its[0][0], its[0][1]])
+            else:
+                ops.append(["array", [v for v, _ in its], ["each", [e for _, e in its]]])
+        else:
+            ops.append(op)
+    return {"cmd": "c14", "ops": ops}
+
+
+def degenerate(o):
+    return any(s.get("mc", {}).get("degenerate") for s in o["steps"])
 
 
 # ---------------------------------------------------------------- comparison and spec
@@ -481,6 +663,10 @@ def compare(c, o, m):
         return [{"signature": "c14:model-error", "kind": "disagreement", "what": "model driver: " +
                  m["fail"], "input": inp, "case": c}]
     for i, (op, si, sm) in enumerate(zip(c["ops"], o["steps"], m["steps"])):
+        if sm.get("wf") is False:
+            return [{"signature": "c14:model-error:edges", "kind": "disagreement", "what": "histogram "
+                     "edges of request {} are not in order (hypothesis WF of C14_inv_step)".format(i),
+                     "input": inp, "case": c, "step": i}]
         if si["out"] != sm["out"]:
             return [{"signature": "c14:outcome:{}:impl-{}".format(op[0], si["out"]),
                      "what": "request {} ({}) answered {}{} but the model answers {}".format(
@@ -512,11 +698,15 @@ def run_cases(ctx, cases, ref=False, with_model=True):
     import qexpy as q
     obs = [observe(q, c) for c in cases]
     H.reset(q)
-    mod = ctx.model([model_line(c) for c in cases], ref=ref) if with_model else [None] * len(cases)
+    mod = ctx.model([model_line(c, o) for c, o in zip(cases, obs)], ref=ref) if with_model \
+        else [None] * len(cases)
     res = {"evaluations": len(cases), "nontrivial": set(), "failures": [], "samples": [],
            "distribution": collections.Counter(), "skipped": 0}
     d = res["distribution"]
     for c, o, m in zip(cases, obs, mod):
+        if degenerate(o):
+            res["skipped"] += 1       # a sample set with fewer than 2 (finite) elements
+            continue
         sp = spec_check(c, o)
         for f in sp:
             f["oracle"] = "independent"
